@@ -217,7 +217,7 @@ def build(targets, flavours=("san",), jobs=16):
     if os.path.isdir(od):
         for f in os.listdir(od):
             p = os.path.join(od, f)
-            if p not in keep and time.time() - os.path.getmtime(p) > 3600:
+            if p not in keep and time.time() - os.path.getmtime(p) > 6 * 3600:
                 try:
                     os.remove(p)
                 except OSError:
